@@ -46,6 +46,7 @@ const (
 	KValuer     = "valuer"
 	KPValuer    = "pvaluer"
 	KNilPValuer = "nilpvaluer"
+	KNilGVal    = "nilgval"  // (*chains.Concat)(nil): a nil pointer that is a gorm.Valuer
 	KGormValuer = "gval"     // gorm.Valuer rendering "(? || ?)" with S and I
 	KVSlice     = "vslice"   // chains.StrList{S, "tail"}: a slice type implementing driver.Valuer
 	KNullTime   = "nulltime" // sql.NullTime (valid)
@@ -88,7 +89,7 @@ func (v Val) EqList() bool {
 // NilLike: the value is SQL NULL (rendered IS NULL by the equality builders).
 func (v Val) NilLike() bool {
 	switch v.K {
-	case KNil, KNilPStr, KNullStr0, KNilPValuer:
+	case KNil, KNilPStr, KNullStr0, KNilPValuer, KNilGVal:
 		return true
 	}
 	return false
@@ -143,6 +144,8 @@ func (v Val) Go() interface{} {
 		return &Wrapped{S: v.S}
 	case KNilPValuer:
 		return (*Wrapped)(nil)
+	case KNilGVal:
+		return (*Concat)(nil)
 	case KGormValuer:
 		return Concat{A: v.S, B: v.I}
 	case KReenter:
@@ -224,7 +227,7 @@ func (v Val) Leaves() []interface{} {
 		return []interface{}{v.time()}
 	case KVSlice:
 		return []interface{}{v.S + "|tail"}
-	case KNil, KNilPStr, KNullStr0, KNilPValuer:
+	case KNil, KNilPStr, KNullStr0, KNilPValuer, KNilGVal:
 		return []interface{}{nil}
 	case KBytes, KHash, KRaw:
 		return []interface{}{[]byte(v.S)}
